@@ -105,10 +105,10 @@ func init() {
 		})
 	clusterCheck("C11",
 		func() []Unit {
-			return append([]Unit{{Name: "enum-compaction", Enum: enumC11}}, scUnits(1, "snap3", "snap3-trail1", "snap3-mono", "stale-suffix", "stale-suffix-trail", "member")...)
+			return append([]Unit{{Name: "enum-compaction", Enum: enumC11}}, scUnits(1, "snap3", "snap3-trail1", "snap3-mono", "stale-suffix", "stale-suffix-trail", "member", "snap-member-slowfsm")...)
 		},
 		func() []Unit {
-			return append([]Unit{{Name: "enum-compaction", Enum: enumC11}}, scUnits(2, "snap3", "snap3-trail1", "snap3-mono", "stale-suffix", "stale-suffix-trail", "member", "crash3")...)
+			return append([]Unit{{Name: "enum-compaction", Enum: enumC11}}, scUnits(2, "snap3", "snap3-trail1", "snap3-mono", "stale-suffix", "stale-suffix-trail", "member", "snap-member-slowfsm", "crash3")...)
 		})
 	timedAssumptions := []string{
 		"timed regime: virtual clock, timers fire strictly in deadline order, thread steps and message delivery take no virtual time",
@@ -146,7 +146,7 @@ func init() {
 				us = append(us, scUnit("shutdown-"+k+"-batch", b))
 			}
 		}
-		us = append(us, scUnit("stepdown-calls", b))
+		us = append(us, scUnit("stepdown-calls", b), scUnit("verify-deposed", 1))
 		if tier == "thorough" {
 			us = append(us, scUnits(1, "write3", "crash3", "transfer", "member")...)
 		}
@@ -165,8 +165,8 @@ func init() {
 		func() []Unit { return scUnits(1, "notify3") },
 		func() []Unit { return scUnits(2, "notify3") })
 	clusterCheck("C09",
-		func() []Unit { return scUnits(1, "verify-nonvoter", "verify3", "verify-stale-ack") },
-		func() []Unit { return scUnits(2, "verify-nonvoter", "verify3", "verify-stale-ack") })
+		func() []Unit { return scUnits(1, "verify-nonvoter", "verify3", "verify-stale-ack", "verify-deposed") },
+		func() []Unit { return scUnits(2, "verify-nonvoter", "verify3", "verify-stale-ack", "verify-deposed") })
 	clusterCheck("C20",
 		func() []Unit {
 			return scUnits(1, "restore3-below", "restore3-equal", "restore3-above", "restore3-mono-below", "restore3-mono-above", "restore3-lagging", "restore-refused")
